@@ -69,6 +69,12 @@ type input struct {
 	Scramble   uint64   `json:"scramble"` // seed of the bytes written over the buffers
 	Stream     string   `json:"stream"`
 	Lines      []lineIn `json:"lines"`
+	// stream recv: real receiver in front of the parser(s); lines = datagrams (end=1), bursts (end=2)
+	Readers int   `json:"readers,omitempty"`
+	Parsers int   `json:"parsers,omitempty"`
+	Batch   int   `json:"batch,omitempty"`
+	DelayUs int   `json:"delay_us,omitempty"` // the handler sleeps this long per dispatched map
+	QuietMs []int `json:"quiet_ms,omitempty"` // silence after each burst
 }
 
 type dgram struct {
@@ -290,6 +296,10 @@ func oracleCands(line string, cands map[string]bool) {
 func runOne(em *hlib.Emitter, in input) {
 	if in.Stream == "lexseq" {
 		runLexSeq(em, in)
+		return
+	}
+	if in.Stream == "recv" {
+		runRecv(em, in)
 		return
 	}
 	batches := assemble(in)
@@ -893,6 +903,10 @@ func main() {
 	case "gen":
 		r := hlib.NewRand(a.Seed)
 		for i := 0; i < a.N; i++ {
+			if i%160 == 7 {
+				runOne(em, genRecv(r.Fork(), a.Tier))
+				continue
+			}
 			if i%4 == 3 {
 				runOne(em, genLexSeq(r.Fork()))
 				continue
